@@ -393,6 +393,10 @@ func (r *reader) _readEvent(canary byte) (m Message, err error) {
 
 		var mim midi.Message
 		mim, err = midi.ReadChannelMessage(status, arg1, r.input)
+		if err != nil {
+			// do not swallow the error (e.g. data ends inside the message), otherwise an empty message would be added
+			return nil, err
+		}
 		m = mim.Bytes()
 
 		// since every possible status is covered by a voice message type, m can't be nil
